@@ -1405,6 +1405,8 @@ class AffInterp:
                                "int-reciprocal", {"C06", "C01", "C03", "C04", "C05", "C07", "C13", "C14", "C18"})
                 raise e
             return self.binop(ast.Div(), 1, args[0])
+        if base in ("asarray", "asanyarray") and len(args) == 1 and not kwargs and isinstance(args[0], (S, AArr, Packed, CArr)):
+            return args[0]              # the same values (a conversion with dtype= is not this)
         if base == "roll" and args and isinstance(args[0], tuple) and args[0] and args[0][0] == "jacview":
             return ("rolled", args[0])
         if base in ("any", "all", "count_nonzero", "allclose", "isclose", "array_equal") and args and any(isinstance(a, (AArr, Packed, JacMat, Op, DataVal, tuple)) for a in args):
@@ -1634,18 +1636,50 @@ def step_effects(project, cls, islinear, nsteps=None):
     from before the call) and attributes it writes, for consecutive steps 1..nsteps on one
     object.  calc_jacobian is executed for real (both sides of its cache guard are reached
     through islinear / step number)."""
-    ai = AffInterp(project, cls)
-    ai.construct()
-    ai.inline_jacobian = True
-    config = set(ai.selfobj.attrs)
-    out = []
-    for n in range(nsteps):
-        f = AField.initial()
-        f.model.islinear = islinear
-        ai.num_islinear = islinear
-        ai.effects = {"written": set(), "carried": [], "writes": []}
-        ai.step(f, dt_arg())
-        eff = ai.effects
-        ai.effects = None
-        out.append(eff)
+    # a step may test its arguments (a guard that raises for a non-positive time step): every path that returns is walked, the
+    # effects of a step number are the union over the paths (a path that ends in `raise` is not a step)
+    pending, done = [()], []
+    while pending:
+        pol = pending.pop(0)
+        if len(pol) > 8:
+            raise AnalysisError("%s: more than 8 data-dependent conditions in %d steps" % (cls.qualname, nsteps))
+        ai = AffInterp(project, cls)
+        ai.construct()
+        ai.inline_jacobian = True
+        if pol:
+            ai.data_policy, ai.data_log = list(pol), []
+        config = set(ai.selfobj.attrs)
+        out = []
+        try:
+            for n in range(nsteps):
+                f = AField.initial()
+                f.model.islinear = islinear
+                ai.num_islinear = islinear
+                ai.effects = {"written": set(), "carried": [], "writes": []}
+                ai.step(f, dt_arg())
+                eff = ai.effects
+                ai.effects = None
+                out.append(eff)
+        except _NeedPolicy:
+            pending.append(pol + (True,))
+            pending.append(pol + (False,))
+            continue
+        except AnalysisError as e:
+            if not pol and "branch on a data-dependent condition" in str(e):
+                pending.append((True,))
+                pending.append((False,))
+                continue
+            if pol and "raise reached" in str(e):
+                continue
+            raise
+        done.append((config, out))
+    if not done:
+        raise AnalysisError("%s: no path through %d steps returns" % (cls.qualname, nsteps))
+    config, out = done[0]
+    for c2, o2 in done[1:]:
+        config |= c2
+        for e1, e2 in zip(out, o2):
+            e1["written"] |= e2["written"]
+            e1["carried"] = list(e1["carried"]) + [x for x in e2["carried"] if x not in e1["carried"]]
+            e1["writes"] = list(e1["writes"]) + [x for x in e2["writes"] if x not in e1["writes"]]
     return config, out
